@@ -35,7 +35,9 @@ namespace GeographicLib {
       s = hypot(x, y);
     real sig, m;
     sig = _earth.Direct(lat0, lon0, azi0, s, lat, lon, azi, m);
-    rk = !(sig <= eps_) ? m / s : 1;
+    // Direct with s = 0 can return a tiny nonzero arc length; don't divide by
+    // zero in this case
+    rk = !(sig <= eps_) && s != 0 ? m / s : 1;
   }
 
 } // namespace GeographicLib
